@@ -67,8 +67,13 @@ def run_case(tag, adj, policy, hosts, seed, rounds, tier, fo, timeout=600):
         os.remove(p)
     grfile.write_gr(os.path.join(d, "g.gr"), adj, 4)
     grfile.write_gr(os.path.join(d, "g.tgr"), transpose(adj), 4)
-    rc, out, dt = sh(MPIRUN + ["-n", str(hosts), dbin("dsync"), os.path.join(d, "out"), str(seed), tier, os.path.join(d, "g.gr"),
-                               os.path.join(d, "g.tgr"), policy, str(rounds)], timeout=timeout, env={"GALOIS_DO_NOT_BIND_THREADS": "1"})
+    cmd = MPIRUN + ["-n", str(hosts), dbin("dsync"), os.path.join(d, "out"), str(seed), tier, os.path.join(d, "g.gr"),
+                    os.path.join(d, "g.tgr"), policy, str(rounds)]
+    rc, out, dt = sh(cmd, timeout=timeout, env={"GALOIS_DO_NOT_BIND_THREADS": "1"})
+    if rc == 124:      # a wall-clock bound depends on the load of the machine: repeat once with three times the bound
+        for p in glob.glob(os.path.join(d, "out.*")):
+            os.remove(p)
+        rc, out, dt = sh(cmd, timeout=3 * timeout, env={"GALOIS_DO_NOT_BIND_THREADS": "1"})
     per = []
     for h in range(hosts):
         p = os.path.join(d, "out.%d.ndjson" % h)
